@@ -156,7 +156,18 @@ def run(ctx: Ctx):
     return "other", ("Mixed: loop-invariant obligations on the real chunk-planning loops; the helpers' end-to-end postconditions are bounded (exhaustive up to the stated size). " + note)
 
 
+def _case_of(payload):
+    if "case" in payload:
+        return payload["case"]
+    m = payload.get("model")
+    return m.get("case") if isinstance(m, dict) else None
+
+
 def replay(payload):
+    if _case_of(payload) is None:
+        print("REPLAY: obligation", payload.get("obligation"), "-", payload.get("formula"), "| solver:", str(payload.get("solver_output"))[:500])
+        return 1
+    payload = {**payload, "case": _case_of(payload)}
     case = payload["case"]
     r = check(case) if "api" in case else check_blockwise_use(case)
     print("REPLAY:", "contract holds" if r is None else r["why"])
